@@ -194,7 +194,7 @@ fn run_fsink(seed: u64) -> Result<u64, Fail> {
                     let now = std::fs::read(&path).unwrap();
                     if &now != c { res = Err(fail(t, "C17", "create-refuses-an-existing-file", format!("{desc}: refused, but the file now holds {} bytes", now.len()), seed)); break 'outer; }
                 }
-                (_, _, Err(e)) => { res = Err(fail(t, "C17", "mode-table", format!("{desc}: open failed: {e}"), seed)); break 'outer; }
+                (_, _, Err(e)) => { res = Err(fail(t, "C17+C14", "mode-table", format!("{desc}: open failed: {e}"), seed)); break 'outer; }
                 (_, _, Ok(mut sink)) => {
                     let mut pos = 0;
                     let base: Vec<u8> = match (mi, init) { (2, Some(c)) => c.clone(), _ => vec![] };
@@ -207,7 +207,7 @@ fn run_fsink(seed: u64) -> Result<u64, Fail> {
                         let mut must = base.clone();
                         must.extend(&data[..consumed]);
                         if on_disk.len() < must.len() || on_disk[..must.len()] != must[..] {
-                            res = Err(fail(t, "C17", "consumed-means-on-disk", format!("{desc}: work() returned with {consumed} samples consumed but the file holds {} of the {} bytes that must be there", on_disk.len(), must.len()), seed));
+                            res = Err(fail(t, "C17+C14", "consumed-means-on-disk", format!("{desc}: work() returned with {consumed} samples consumed but the file holds {} of the {} bytes that must be there", on_disk.len(), must.len()), seed));
                             break 'outer;
                         }
                     }
@@ -217,7 +217,7 @@ fn run_fsink(seed: u64) -> Result<u64, Fail> {
                     let mut want = match (mi, init) { (2, Some(c)) => c.clone(), _ => vec![] };
                     want.extend(&data);
                     if now != want {
-                        res = Err(fail(t, "C17", "mode-table", format!("{desc}: after writing {} bytes the file holds {} bytes {:?}.., specified {} bytes {:?}..", data.len(), now.len(), &now[..now.len().min(6)], want.len(), &want[..6]), seed));
+                        res = Err(fail(t, "C17+C14", "mode-table", format!("{desc}: after writing {} bytes the file holds {} bytes {:?}.., specified {} bytes {:?}..", data.len(), now.len(), &now[..now.len().min(6)], want.len(), &want[..6]), seed));
                         break 'outer;
                     }
                 }
